@@ -867,23 +867,45 @@ def _premature(case, obs):
     return out
 
 
+def _tree_keys(obs, i):
+    """value-holding nodes in the data tree of the node returned at step i, read off the observed wiring"""
+    keys, todo, seen = set(), [i], set()
+    while todo:
+        k = todo.pop()
+        if k in seen or len(obs[k]) != 6:
+            continue
+        seen.add(k)
+        for w in obs[k][3]:
+            if w[0] == "u":
+                keys.add(("u", w[1]))
+            elif w[0] == "v":
+                keys.add(("n", k))
+            elif w[0] == "r":
+                todo.append(w[1])
+            elif w[0] == "s":
+                for w2 in w[2:]:
+                    if w2[0] == "u":
+                        keys.add(("u", w2[1]))
+                    elif w2[0] == "v":
+                        keys.add(("s", json.dumps([obs[k][3][0], w])))
+                    elif w2[0] == "r":
+                        todo.append(w2[1])
+    return keys
+
+
 def _parent_cache_hit(case, obs, i):
-    """pull at step i happens in a Workflow that already completed a pull, and no child with a
-    value-holding input was added since: parent.run() is a cache hit and runs nothing upstream"""
+    """the pull at step i happens in a Workflow that already completed a pull, got no new child since,
+    and has the same value-holding nodes in its data tree: parent.run() is a cache hit, nothing runs"""
     if not case["parent"]:
         return False
     last = None
     for j in range(i):
         if len(obs[j]) == 6 and obs[j][4] and obs[j][4][0] == "val":
             last = j
-    if last is None:
+    if last is None or obs[i][2] != obs[last][2]:
         return False
-    for k in range(last + 1, i + 1):
-        before = obs[k - 1][2] if k > 0 else len(case["users"])
-        grew = len(obs[k]) == 6 and obs[k][2] > before
-        if grew and any(r[0] == "raw" for r in _step_refs(case["steps"][k])):
-            return False
-    return True
+    first = lambda k: obs[k][0][2]
+    return _tree_keys(obs, first(i)) == _tree_keys(obs, first(last))
 
 
 def _closure(case, i):
